@@ -51,7 +51,25 @@ func GenGeom(r *gen.R, maxDepth int, coord func(*gen.R) float64) geom.Geom {
 		o.MaxVerts = 40
 	}
 	g := gen.RandGeom(r, o, 0)
-	if r.Chance(0.01) {
+	if r.Chance(0.004) {
+		// very many EMPTY nested collections (and empty multi-geometries) followed by a non-empty
+		// collection: anything counted per nested element (depth, budget) is exercised without depth
+		n := []int{127, 1024, 4097, 9999, 10000, 10001, 12000, 16385, 32769, 65537}[r.Intn(10)]
+		gc := make(geom.GeometryCollection, 0, n+2)
+		for i := 0; i < n; i++ {
+			switch r.Intn(4) {
+			case 0:
+				gc = append(gc, geom.MultiPolygon{})
+			default:
+				gc = append(gc, geom.GeometryCollection{})
+			}
+		}
+		gc = append(gc, geom.GeometryCollection{geom.Point{X: coord(r), Y: coord(r)}, geom.GeometryCollection{geom.LineString{{X: coord(r), Y: coord(r)}}}})
+		g = gc
+		if r.Bool() {
+			g = geom.GeometryCollection{geom.Point{X: 1, Y: 2}, gc}
+		}
+	} else if r.Chance(0.01) {
 		// 127..8192 small members
 		g = gen.ManyMembers(r, []int{gen.KMultiPoint, gen.KMultiLineString, gen.KPolygon, gen.KMultiPolygon}[r.Intn(4)], coord)
 		if r.Bool() {
